@@ -59,11 +59,42 @@ let () =
 
 (* C01 / C11: loader *)
 let msg_hex (m : message) = hex_of_bytes (m.m_header @ m.m_body)
+let nat_of_int (i : int) : nat = let r = ref O in for _ = 1 to i do r := S !r done; !r
 let () =
   reg "load" (fun (_mode :: chunks) ->
     let l = List.fold_left (fun l c -> feed l (bytes_of_hex c) N0) loader_new chunks in
     Printf.sprintf "corrupted=%s reason=%d msgs=%s" (b2s l.l_corrupted) (if l.l_corrupted then int_of_z l.l_reason else 0)
       (if l.l_msgs = [] then "-" else String.concat "|" (List.map msg_hex l.l_msgs)));
+  reg "loadf" (fun (nfds :: chunks) ->
+    (* the transport's reading loop, step by step (to print the limits), cross-checked against the extracted feed_limited *)
+    let reads = ref [] in
+    let stalled = ref false in
+    let rec loop l (c : n list) fds =
+      if c = [] || !stalled then l
+      else if l.l_corrupted then l
+      else match max_to_read l with
+        | None -> stalled := true; reads := "fuel" :: !reads; l
+        | Some (mx, may) ->
+            let mxi = int_of_n mx in
+            reads := Printf.sprintf "%d:%s" mxi (b2s may) :: !reads;
+            if mxi = 0 then (stalled := true; l)
+            else begin
+              let k = min mxi (List.length c) in
+              let rec split i acc r = if i = 0 then (List.rev acc, r) else (match r with x :: r' -> split (i - 1) (x :: acc) r' | [] -> (List.rev acc, [])) in
+              let (a, b) = split k [] c in
+              loop (feed l a fds) b N0
+            end in
+    let k = n_of_int (int_of_string nfds) in
+    let (l, _) = List.fold_left (fun (l, first) c -> (loop l (bytes_of_hex c) (if first then k else N0), false)) (loader_new, true) chunks in
+    let (l2, ok2, _) = List.fold_left (fun (l, ok, first) c ->
+        if not ok then (l, ok, false) else
+        match feed_limited (nat_of_int (List.length (bytes_of_hex c) + 1)) l (bytes_of_hex c) (if first then k else N0) with
+        | Inl l' -> (l', true, false) | Inr l' -> (l', false, false)) (loader_new, true, true) chunks in
+    let same = (ok2 = not !stalled) && (not ok2 || (l2.l_corrupted = l.l_corrupted && List.map msg_hex l2.l_msgs = List.map msg_hex l.l_msgs)) in
+    Printf.sprintf "corrupted=%s stalled=%s reads=%s msgs=%s%s" (b2s l.l_corrupted) (b2s !stalled)
+      (if !reads = [] then "-" else String.concat "," (List.rev !reads))
+      (if l.l_msgs = [] then "-" else String.concat "|" (List.map msg_hex l.l_msgs))
+      (if same then "" else " ?glue-differs-from-feed_limited"));
   reg "demarshal" (fun [h] ->
     let d = bytes_of_hex h in
     let need = int_of_z (bytes_needed d) in
